@@ -5,6 +5,7 @@
 -/
 import AferoVerif.Model.Contains
 import AferoVerif.Proofs.Util
+import AferoVerif.Generated.Facts
 namespace AferoVerif.C17
 open AferoVerif
 
@@ -199,5 +200,13 @@ example : MemFs.InRange MemFs.init ∧ MemFs.init.lookup (parentKey (keyOfStr "/
   ⟨MemFs.inRange_init, by decide, by decide, by decide⟩
 example : (Util.readFile (Util.writeFile MemFs.init "/f".toList [1, 2, 3] 0o644).1 "/f".toList).2 = some [1, 2, 3] := by decide
 example : (Util.readFile (Util.writeReader (Util.writeFile MemFs.init "/f".toList [1, 2, 3, 4, 5] 0o644).1 "/f".toList [9]).1 "/f".toList).2 = some [9] := by decide
+
+/-! ### tie to the source: constants regenerated from the Go code on every run -/
+
+/-- the window of the search: `bufflen := largest * 4`, `halflen := bufflen / 2` as written in util.go;
+    the model's loop runs with exactly that half -/
+theorem window_is_source (content : Bytes) (ns : List Bytes) (h1 : ns.isEmpty = false) (h2 : largest ns ≠ 0) :
+    containsAny content ns = containsLoop (largest ns * Generated.windowMul / Generated.windowDiv) ns [] content := by
+  unfold containsAny; simp [h1, h2, Generated.windowMul, Generated.windowDiv]
 
 end AferoVerif.C17
